@@ -29,6 +29,7 @@ import types
 
 from .. import core
 from .. import structworld as W
+from ..relhist import HistCorr
 from ..impl import mx, close_all, quiet, err_kind
 from modelx.core.base import Interface
 from modelx.core.reference import ReferenceImpl
@@ -217,6 +218,7 @@ class Run:
         self.dead = False
         self.views = views       # read every user-visible view of every reference after every operation
         self.kept = []           # ItemSpaces created earlier: (op, item, impl) - alive ones are re-checked after edits
+        self.hist = HistCorr()   # the state machine of Kernels/RelativeHist.lean, fed one operation per edit
 
     # -- driver batching
     def ask(self, lines, handler):
@@ -254,6 +256,7 @@ class Run:
                 if self.dead or unkeyed(self.out) >= 4:
                     break
             self.flush()
+            self.finish_hist()
         finally:
             try:
                 self.live.close()
@@ -264,6 +267,9 @@ class Run:
                 shutil.rmtree(self.tmp, ignore_errors=True)
         return self.nontrivial
 
+    def finish_hist(self):
+        self.hist.finish(self.out, lambda k: {"ops": self.ops[:k + 1]}, self.stats)
+
     def step(self, k, op):
         """one operation with its observations.  An exception that comes out of the implementation while the
         harness looks at the model (not while applying the operation: that is the operation's result) is an
@@ -272,6 +278,7 @@ class Run:
             if op[0] == "item":
                 self.op_item(k, op)
             elif op[0] == "roundtrip":
+                self.hist.stop(k, "roundtrip")
                 self.op_roundtrip(k, op)
             elif op[0] == "evalrefs":
                 self.op_evalrefs(k)
@@ -299,6 +306,7 @@ class Run:
             hyp = self.hypothetical(op)
         before_refs = self.ref_objects()
         r = live.apply(op)
+        self.hist.after(live, k, op, r)
         if r.startswith("err"):
             self.stats["rejected:" + op[0] + ":" + r[4:]] += 1
             self.after_rejected(k, op, r, pre, hyp)
@@ -1773,6 +1781,7 @@ def run_random(rng, n_ops, out, stats, tag):
             live = run.live      # (a roundtrip replaces the model object)
             k += 1
         run.flush()
+        run.finish_hist()
     finally:
         try:
             run.live.close()
